@@ -115,7 +115,9 @@ func c02Exec(cs progCase, keys []string, classify func(r *prog.Runner) func(op p
 		}
 		if !done {
 			o := op
-			o.Via = ""
+			if o.Via == "api" {
+				o.Via = ""
+			}
 			sd = r.Step(o)
 		}
 		if len(sd) == 0 {
@@ -204,8 +206,12 @@ func c02GenOp(rt *rapid.T, single bool, mixed bool) prog.Op {
 		case 1:
 			op.SB = op.B
 		}
-		if rapid.IntRange(0, 2).Draw(rt, "copymeta") == 0 {
+		if rapid.IntRange(0, 4).Draw(rt, "directive") == 0 {
+			op.Via = "directive-copy"
+		}
+		if op.Via != "directive-copy" && rapid.IntRange(0, 2).Draw(rt, "copymeta") == 0 {
 			// the copy request overrides metadata: the destination gets it, the source must not
+			// (never together with the COPY directive, under which S3 ignores the request's metadata)
 			op.Meta = [][2]string{{"X-Amz-Meta-Tag", fmt.Sprintf("copy%d", rapid.IntRange(0, 9).Draw(rt, "cmv"))}, {"X-Amz-Meta-Only-On-Copy", "c"}}
 		}
 	}
@@ -328,7 +334,7 @@ func c02Run(t *testing.T, c *evid.Collector) {
 		sent := [][2]string{{"X-Amz-Meta-Tag", "copy1"}, {"X-Amz-Meta-Only-On-Copy", "c"}}
 		hs := [][]prog.Op{
 			{{K: "put", B: "bk0", Key: "a", Body: []byte("source"), Meta: [][2]string{{"X-Amz-Meta-Tag", "v1"}}}, {K: "put", B: "bk0", Key: "b", Body: []byte("destination")},
-				{K: "copy", B: "bk0", Key: "b", SB: "bk0", SKey: "a", Meta: sent}, {K: "copy", B: "bk0", Key: "b", SB: "bk0", SKey: "a", Via: "api"}, {K: "get", B: "bk0", Key: "a"},
+				{K: "copy", B: "bk0", Key: "b", SB: "bk0", SKey: "a", Meta: sent}, {K: "copy", B: "bk0", Key: "b", SB: "bk0", SKey: "a", Via: "directive-copy"}, {K: "get", B: "bk0", Key: "a"}, {K: "copy", B: "bk0", Key: "b", SB: "bk0", SKey: "a", Via: "api"}, {K: "get", B: "bk0", Key: "a"},
 				{K: "copy", B: "bk0", Key: "f.txt", SB: "bk0", SKey: "a", Via: "api"}, {K: "copy", B: "bk0", Key: "a", SB: "bk0", SKey: "a", Via: "api"}, {K: "put", B: "bk0", Key: "a", Body: []byte("again")}},
 			{{K: "put", B: "bk0", Key: "d/x", Body: []byte("dx")}, {K: "put", B: "bk0", Key: "d/y", Body: []byte("dy"), Meta: [][2]string{{"X-Amz-Meta-Tag", "y"}}},
 				{K: "copy", B: "bk0", Key: "d/y", SB: "bk0", SKey: "d/y", Meta: sent}, {K: "copy", B: "bk0", Key: "d/y", SB: "bk0", SKey: "d/x", Via: "api"}, {K: "copy", B: "bk0", Key: "b", SB: "bk0", SKey: "d/x", Via: "api"},
